@@ -1,6 +1,7 @@
 // Command diskchild is the child process of the disk checks:
 //
 //	diskchild script <script.json> <image>   run a sequential FileDisk script (C11, under strace)
+//	diskchild short <case.json> <image>      overwrite blocks under a file size limit (C11 short writes)
 //	diskchild conc <cases.json>              run concurrent workloads (C10, built with -race)
 //
 // It is built from the tree under test by cmd/check (registry "bins").
@@ -44,6 +45,21 @@ func main() {
 			die("%v", err)
 		}
 		work.RunScript(s, os.Args[3], os.Stdout)
+	case "short":
+		if len(os.Args) != 4 {
+			die("usage: short <case.json> <image>")
+		}
+		b, err := os.ReadFile(os.Args[2])
+		if err != nil {
+			die("%v", err)
+		}
+		var c work.ShortCase
+		if err := json.Unmarshal(b, &c); err != nil {
+			die("%v", err)
+		}
+		if err := work.RunShort(c, os.Args[3], os.Stdout); err != nil {
+			die("%v", err)
+		}
 	case "conc":
 		if err := work.ConcMain(os.Args[2], os.Stdout, os.Stderr); err != nil {
 			die("%v", err)
